@@ -287,22 +287,37 @@ class RuleAlias:
         return getattr(self._ck, name)
 
     def ok(self, rule, instance, detail="", where=""):
-        self._ck.ok(self._rename(rule), instance, detail, where)
+        r = self._rename(rule)
+        if r is not None:
+            self._ck.ok(r, instance, detail, where)
 
     def violate(self, rule, key, message, where=""):
-        self._ck.violate(self._rename(rule), key, message, where)
+        r = self._rename(rule)
+        if r is not None:
+            self._ck.violate(r, key, message, where)
 
     def info(self, rule, instance, detail="", where=""):
-        self._ck.info(self._rename(rule), instance, detail, where)
+        r = self._rename(rule)
+        if r is not None:
+            self._ck.info(r, instance, detail, where)
 
     def require(self, cond, rule, instance, message, where="", ok_detail=""):
-        return self._ck.require(cond, self._rename(rule), instance, message, where, ok_detail)
+        r = self._rename(rule)
+        if r is None:
+            return cond
+        return self._ck.require(cond, r, instance, message, where, ok_detail)
 
     def floor(self, rule, what, count, minimum):
-        self._ck.floor(self._rename(rule), what, count, minimum)
+        r = self._rename(rule)
+        if r is not None:
+            self._ck.floor(r, what, count, minimum)
 
     def anchor(self, suffix, rule="anchor"):
         return self._ck.anchor(suffix, rule)
+
+    @property
+    def quiet_subset(self):
+        return True
 
     def count(self, what, n):
         pass
